@@ -285,3 +285,27 @@ async fn get_user_session(
         }
     }
 }
+
+#[cfg(rnacos_verif)]
+impl RequestServerImpl {
+    /// verification hook: the real `fill_token_session` followed by the real `InvokerHandler::handle`
+    /// (what `request()` does after the connection bookkeeping), without a tonic transport.
+    pub async fn verif_fill_and_handle(
+        &self,
+        payload: Payload,
+    ) -> (bool, bool, anyhow::Result<crate::grpc::HandlerResult>) {
+        let mut request_meta = RequestMeta {
+            client_ip: "127.0.0.1".to_owned(),
+            client_version: EMPTY_CLIENT_VERSION.clone(),
+            connection_id: Arc::new("verif_conn".to_owned()),
+            ..Default::default()
+        };
+        self.fill_token_session(&payload, &mut request_meta)
+            .await
+            .ok();
+        let has_session = request_meta.token_session.is_some();
+        let cluster_ok = request_meta.cluster_token_is_valid;
+        let r = self.invoker.handle(payload, request_meta).await;
+        (has_session, cluster_ok, r)
+    }
+}
